@@ -548,7 +548,8 @@ def run(ctx):
     ctx.prove(["TLX.Props.C17"])
     ctx.require_theorems(THEOREMS)
     explore(ctx)
-    ctx.exhaustive = ("all 65 793 byte strings of length <= 2 (sub-space (b))"
+    ctx.exhaustive = False
+    ctx.extra["exhaustive_subspaces"] = ("all 65 793 byte strings of length <= 2 (sub-space (b))"
                       + ("; thorough tier: also all 16 777 216 byte strings of length 3" if ctx.thorough() else "")
                       + "; the rest is sampled")
     smallest_first(ctx)
